@@ -774,7 +774,7 @@ def unit_reuse(ctx):
     change = ctx.choose("change", ["array[cell] = v", "array[...] *= -3", "array = new", "update_field_values",
                                    "partner.array[...] += 1"])
     first = ctx.choose("first", ["same-expression", "norm+orientation", "nothing"])
-    mesh = make_mesh("3d-122")
+    mesh = make_mesh(ctx.choose("mesh", ["3d-122"] if ctx.tier == "quick" else ["3d-122", "1d-2", "2d-21", "4d-2112"]))
     n = tuple(int(i) for i in mesh.n)
     if op in ("and", "cross") and k != 3:
         raise engine.Skip()
